@@ -146,8 +146,12 @@ class EBB3:
             return # ebb_version_string is not a reasonable version number.
 
         ebb_version_string = ebb_version_string.strip()  # Stripped copy, for number comparisons
+        try:
+            parsed_version = parse(ebb_version_string)
+        except InvalidVersion:
+            return # ebb_version_string is not a reasonable version number.
         self.version = ebb_version_string
-        self.version_parsed = parse(ebb_version_string)
+        self.version_parsed = parsed_version
 
 
     def query_nickname(self):
@@ -251,7 +255,7 @@ class EBB3:
 
         self.parse_version(str_version) # Parse firmware version
 
-        if not self.min_version(self.MIN_VERSION_STRING):
+        if (self.version_parsed is None) or (not self.min_version(self.MIN_VERSION_STRING)):
             error_msg = f"Firmware version ({self.version}) not supported.\n"
             error_msg += f"Firmware {self.MIN_VERSION_STRING} or newer is required.\n"
             error_msg += "Visit https://bantam.tools/ndfw to update your firmware."
